@@ -78,6 +78,16 @@ CLAIMS = {
          "any number of cell/face types symbolic."),
    design='6 C18', technique='contract-based deductive verification over the clang AST with uninterpreted-function models of tinyxml2 and std::sto*, exceptions as outcomes, SMT',
    note=NOTE_COMMON + " tinyxml2 and std::stod/stoi are modelled, not verified."),
+ 'C17': dict(
+   text=("Slice of the property decided by contracts on the real code, i.e. everything after the std::regex front end has produced numbers: "
+         "mesh_reader::get_cell_mesh is memory-safe for EVERY pair of vectors (arbitrary cell record of any length, arbitrary counters and point ids, "
+         "conversions modulo 2^N): every element read, std::copy range and set insertion lies inside its vector, the face loop terminates, "
+         "only mesh_reader_exception escapes; simulation_initializer::run establishes one mesh / one type id / one slot per cell and an id list "
+         "0..n-1 before starting the workers, and the worker indexes the type list only with 0 <= id < size for every short (negative and "
+         "truncated ids included); the parameter-reader contracts of C18 (null text, missing tag, exception classes); static facts: every throw "
+         "expression in the repository throws a class derived from std::exception and main() catches std::exception& around start-up."),
+   design='6 C17', technique='contract-based deductive verification: own VC generator over the clang AST (loop contracts, modular integer conversions, scalar set/map model) + SMT; native ASan replay of refuted obligations',
+   note=NOTE_COMMON + " Not decided: the std::regex / std::stoi / iostream front end of mesh_reader (tokenisation, memory use, termination of regex_search) and tinyxml2's parser: no contract reaches library code compiled from templates; byte-level fuzzing is a different technique."),
  'C19': dict(
    text=("Slice of the property decided by contracts on the real code: file number = floor(t/S)+1 and a file pair written exactly when it changes "
          "(with the no-gap lemma for dt <= S in exact arithmetic), what run_iteration writes when (statistics every 50th iteration, mesh output "
